@@ -312,19 +312,21 @@ const PAYLOADS: &[&[u8]] = &[b"{\"iss\":\"joe\"}", b"hello", b"he.llo", b"\x00\x
 /// verified iff the header's algorithm is the one of the key's curve, the signature was made with that key, and the pin (if any) equals the header's algorithm
 fn exec_ecdsa(case: &[i64]) -> Outcome {
   use p256::ecdsa::signature::Signer;
-  let (kc, sc, halg, pin, ser) = (case[1], case[2], case[3], case[4], case[5]);
+  let (kc, sc, halg, pin, ser) = (case[1], case[2], case[3], case[4], case[5]); let shape = case.get(6).copied().unwrap_or(0);
   let hdr = format!(r#"{{"alg":"{}"}}"#, ALGS[halg as usize]);
   let si = format!("{}.{}", identity_jose::jwu::encode_b64(hdr.as_bytes()), identity_jose::jwu::encode_b64(b"{\"iss\":\"x\"}"));
   let secret = [7u8; 32];
   let p_sk = p256::ecdsa::SigningKey::from_slice(&secret).unwrap(); let k_sk = k256::ecdsa::SigningKey::from_slice(&secret).unwrap();
   let sig: Vec<u8> = if sc == 0 { let s: p256::ecdsa::Signature = p_sk.sign(si.as_bytes()); s.to_bytes().to_vec() } else { let s: k256::ecdsa::Signature = k_sk.sign(si.as_bytes()); s.to_bytes().to_vec() };
+  // signature shapes: 0 as signed; 1 one byte appended; 2 a second copy appended; 3 last byte dropped; 4 a zero byte in front
+  let sig: Vec<u8> = match shape { 1 => [sig.clone(), vec![0]].concat(), 2 => [sig.clone(), sig.clone()].concat(), 3 => sig[..sig.len() - 1].to_vec(), 4 => [vec![0], sig.clone()].concat(), _ => sig };
   let (x, y, crv) = if kc == 0 { let p = p_sk.verifying_key().to_encoded_point(false); (p.x().unwrap().to_vec(), p.y().unwrap().to_vec(), "P-256") } else { let p = k_sk.verifying_key().to_encoded_point(false); (p.x().unwrap().to_vec(), p.y().unwrap().to_vec(), "secp256k1") };
   let mut jwk: Jwk = serde_json::from_value(json!({"kty": "EC", "crv": crv, "x": identity_jose::jwu::encode_b64(&x), "y": identity_jose::jwu::encode_b64(&y)})).unwrap();
   if pin > 0 { jwk.set_alg(ALGS[pin as usize]); }
   let dec = Decoder::new(); let verifier = identity_ecdsa_verifier::EcDSAJwsVerifier::default();
   let tok: Vec<u8> = if ser == 0 { format!("{}.{}", si, identity_jose::jwu::encode_b64(&sig)).into_bytes() } else { let mut parts = si.split('.'); serde_json::to_vec(&json!({"protected": parts.next().unwrap(), "payload": parts.next().unwrap(), "signature": identity_jose::jwu::encode_b64(&sig)})).unwrap() };
   let verified = if ser == 0 { dec.decode_compact_serialization(&tok, None).and_then(|it| it.verify(&verifier, &jwk)).is_ok() } else { dec.decode_flattened_serialization(&tok, None).and_then(|it| it.verify(&verifier, &jwk)).is_ok() };
-  let should = kc == sc && ((kc == 0 && halg == 2) || (kc == 1 && halg == 3)) && (pin == 0 || pin == halg);
+  let should = shape == 0 && kc == sc && ((kc == 0 && halg == 2) || (kc == 1 && halg == 3)) && (pin == 0 || pin == halg);
   let mut o = Outcome::new(vec![]).class(if verified { "ecdsa-verified" } else { "ecdsa-rejected" });
   if verified != should { o = o.fail(if verified { "a real ECDSA token was reported verified although the header's algorithm, the key's curve, the signing key or the key's pinned algorithm do not match" } else { "a correctly signed ECDSA token was rejected" }); }
   o
@@ -332,6 +334,7 @@ fn exec_ecdsa(case: &[i64]) -> Outcome {
 
 pub fn gen_c01(rng: &mut Rng, thorough: bool, sink: &mut Sink) {
   for kc in 0..2 { for sc in 0..2 { for halg in [2i64, 3] { for pin in [0i64, 2, 3] { for ser in 0..2 { sink.case(vec![9, kc, sc, halg, pin, ser], "ecdsa-real-keys"); } } } } }
+  for kc in 0..2 { for pin in [0i64, 2, 3] { for ser in 0..2 { for shape in 1..5 { sink.case(vec![9, kc, kc, 2 + kc, pin, ser, shape], "ecdsa-signature-length"); } } } }
   let sig = b"signature-bytes!";
   // (a) compact: header text x payload x form x attached/detached x key alg pin x verifier answer
   for ht in HEADER_TEXTS { let e = entry_from_json(ht.as_bytes()); for pl in PAYLOADS { for form in 0..2 { for detached in 0..3 {
